@@ -149,8 +149,38 @@ def mk(spec):
     raise ValueError(ty)
 
 
+def rebind_history(events):
+    """a history before the observations: the datatypes of the job are bound to an application type (rdflib.term.bind, the documented way to
+    plug in a Python type), literals with the job's lexical forms are made while that binding is in force, and the documented bindings are
+    put back.  What a lexical form denotes afterwards is a function of (datatype, form) alone."""
+    from rdflib.term import _reset_bindings, bind
+
+    class Other(str):
+        pass
+
+    seen = set()
+    for e in events:
+        if e["op"] == "lex":
+            dt = URIRef(XSD + e["dt"])
+            if dt not in seen:
+                seen.add(dt)
+                bind(dt, Other, constructor=Other, lexicalizer=str, datatype_specific=True)
+    try:
+        for e in events:
+            if e["op"] == "lex":
+                for nm in (True, False):
+                    try:
+                        Literal(e["lex"], datatype=URIRef(XSD + e["dt"]), normalize=nm).value
+                    except Exception:     # noqa: BLE001
+                        pass
+    finally:
+        _reset_bindings()
+
+
 def replay(cfg, events):
     evs = []
+    if cfg.get("history") == "rebind":
+        rebind_history(events)
     for e in events:
         e = dict(e)
         op = e["op"]
@@ -190,6 +220,18 @@ def replay(cfg, events):
                     ok = type(back) is str and back == v and str(l) == v
                 e.update(dt=dts(l.datatype), lex=chars(str(l)), text=str(l), back=bool(ok), ill=bool(l3.ill_typed), canon=chars(canon_py(v, dts(l.datatype))),
                          fields=fields_py(v), dur=dur_py(v), args=repr(e["args"])[:80])
+            elif op == "eq" and e.get("fam") == "xmleq":
+                # two spellings of XML fragments whose trees the generator knows: the value of an rdf:XMLLiteral is the tree
+                RDFNS = "http://www.w3.org/1999/02/22-rdf-syntax-ns#"
+                la = Literal(e["a"]["lex"], datatype=URIRef(RDFNS + e["a"]["dt"]))
+                lb = Literal(e["b"]["lex"], datatype=URIRef(RDFNS + e["b"]["dt"]))
+                term_eq = la == lb
+                e["a"] = {"lex": chars(e["a"]["lex"]), "dt": e["a"]["dt"], "text": e["a"]["lex"]}
+                e["b"] = {"lex": chars(e["b"]["lex"]), "dt": e["b"]["dt"], "text": e["b"]["lex"]}
+                e.update(term_eq=bool(term_eq), comparable=not la.ill_typed and not lb.ill_typed and la.value is not None and lb.value is not None,
+                         nan=False, py_eq=bool(e.pop("same")))
+                r, r2 = la.eq(lb), lb.eq(la)
+                e.update(eq=bool(r), eq_rev=bool(r2), neq=bool(la.neq(lb)))
             elif op == "eq":
                 la = Literal(e["a"]["lex"], datatype=URIRef(XSD + e["a"]["dt"]), normalize=False)
                 lb = Literal(e["b"]["lex"], datatype=URIRef(XSD + e["b"]["dt"]), normalize=False)
